@@ -1064,3 +1064,92 @@ macro_rules! t8_block_inst {
 }
 t8_block_inst!(t8_block_gc_reencode, 0, 5);
 t8_block_inst!(t8_block_skip_reencode, 10, 5);
+
+/// Integer tag (125): the merged Ok/Err result of `read_var::<i64>` makes the discriminant of the
+/// decoded `Any` symbolic, so the decoded number is extracted and re-wrapped (concrete discriminant)
+/// before the real `Any::encode` runs on it; that the decoder returns nothing but `Number` is asserted.
+fn t8_any_int<const N: usize>() {
+    let buf: [u8; N] = kani::any();
+    let mut full = [0u8; 16];
+    full[0] = 125;
+    let mut i = 0;
+    while i < N {
+        full[i + 1] = buf[i];
+        i += 1;
+    }
+    let mut c = Cursor::new(&full[..N + 1]);
+    let r = Any::decode(&mut c);
+    if let Ok(a) = &r {
+        let n = match a {
+            Any::Number(n) => Some(*n),
+            _ => None,
+        };
+        assert!(n.is_some(), "tag 125 decodes to a number");
+        if let Some(n) = n {
+            let b = Any::Number(n);
+            let mut rec: RecorderN<24> = RecorderN::new();
+            b.encode(&mut rec);
+            kani::cover!(rec.n >= 2, "decoded and re-encoded");
+            std::mem::forget(b);
+        }
+    }
+    std::mem::forget(r);
+    kani::cover!(true, "reach");
+}
+macro_rules! t8_any_int_inst {
+    ($name:ident, $n:expr) => {
+        #[kani::proof]
+        #[kani::unwind(26)]
+        #[kani::stub(std::hash::RandomState::new, random_state_new)]
+        #[kani::stub(std::str::from_utf8, from_utf8_model)]
+        fn $name() {
+            t8_any_int::<$n>()
+        }
+    };
+}
+t8_any_int_inst!(t8_any_int2_reencode, 2);
+t8_any_int_inst!(t8_any_int10_reencode, 10);
+
+/// Buffer tag (116) with a concrete length byte: same re-wrapping as `t8_any_int` (the string
+/// instance, tag 119, did not finish within 240 s and is not registered).
+fn t8_any_bytes<const N: usize>(tag: u8) {
+    let buf: [u8; N] = kani::any();
+    let mut full = [0u8; 16];
+    full[0] = tag;
+    full[1] = N as u8;
+    let mut i = 0;
+    while i < N {
+        full[i + 2] = buf[i];
+        i += 1;
+    }
+    let mut c = Cursor::new(&full[..N + 2]);
+    let r = Any::decode(&mut c);
+    if let Ok(a) = &r {
+        let b = match a {
+            Any::String(s) => Some(Any::String(s.clone())),
+            Any::Buffer(s) => Some(Any::Buffer(s.clone())),
+            _ => None,
+        };
+        assert!(b.is_some(), "tags 119/116 decode to a string / buffer");
+        if let Some(b) = b {
+            let mut rec: RecorderN<24> = RecorderN::new();
+            b.encode(&mut rec);
+            kani::cover!(rec.n >= 2, "decoded and re-encoded");
+            std::mem::forget(b);
+        }
+    }
+    std::mem::forget(r);
+    kani::cover!(true, "reach");
+}
+macro_rules! t8_any_bytes_inst {
+    ($name:ident, $tag:expr, $n:expr) => {
+        #[kani::proof]
+        #[kani::unwind(26)]
+        #[kani::stub(std::hash::RandomState::new, random_state_new)]
+        #[kani::stub(std::str::from_utf8, from_utf8_model)]
+        fn $name() {
+            t8_any_bytes::<$n>($tag)
+        }
+    };
+}
+t8_any_bytes_inst!(t8_any_buffer2_reencode, 116, 2);
